@@ -31,6 +31,9 @@ type muxCase struct {
 	SegMin   int64   `json:"seg_min"`
 	SegCount int     `json:"seg_count"`
 	Audio2   bool    `json:"audio2"` // video-led: add a non-leading AAC track and feed it
+	A2Rate   int64   `json:"a2_rate,omitempty"`  // its sample rate (0 = 48000)
+	A2Batch  int     `json:"a2_batch,omitempty"` // access units per WriteMPEG4Audio call on it (0 = 1)
+	Batch    []int   `json:"batch,omitempty"`    // AAC-led: access units per WriteMPEG4Audio call (sums to len(Flags)); empty = one per call
 	PMClass  string  `json:"pm_class"`
 }
 
@@ -75,8 +78,21 @@ func (c *muxCase) effSegCount() int64 {
 // ---- observations ----
 
 type partObs struct {
-	Dur int64 `json:"d"`
-	N   int64 `json:"n"`
+	Dur   int64 `json:"d"`
+	N     int64 `json:"n"`
+	Ticks int64 `json:"ticks"` // sum of the sample durations of the leading track in the served part file
+}
+
+// callSizes returns the number of writes (access units) each Write* call carries.
+func (c *muxCase) callSizes() []int {
+	if c.Kind == "aac" && len(c.Batch) > 0 {
+		return c.Batch
+	}
+	b := make([]int, len(c.Flags))
+	for i := range b {
+		b[i] = 1
+	}
+	return b
 }
 
 type viewObs struct {
@@ -92,6 +108,7 @@ type muxObs struct {
 	Adjusted  int64       `json:"adjusted"`
 	Freeze    bool        `json:"freeze"`
 	PTTrace   [][2]int64  `json:"pt_trace"`
+	NonFinal  []partObs   `json:"-"` // every non-final part ever closed, in order (for the tick-exact oracle)
 	Errors    int64       `json:"errors"`
 	OtherErrs []string    `json:"other_errors,omitempty"`
 	Views     []viewObs   `json:"views"`
@@ -229,9 +246,17 @@ func runMuxer(c *muxCase, nviews []int) (*muxObs, error) {
 		return nil, fmt.Errorf("bad kind %q", c.Kind)
 	}
 	tracks := []*gohlslib.Track{lead}
+	a2rate := c.A2Rate
+	if a2rate == 0 {
+		a2rate = 48000
+	}
+	a2batch := c.A2Batch
+	if a2batch < 1 {
+		a2batch = 1
+	}
 	if c.Audio2 && (c.Kind == "h264" || c.Kind == "av1") {
 		audio = &gohlslib.Track{Codec: &codecs.MPEG4Audio{Config: mpeg4audio.Config{
-			Type: 2, SampleRate: 48000, ChannelCount: 2}}, ClockRate: 48000}
+			Type: 2, SampleRate: int(a2rate), ChannelCount: 2}}, ClockRate: int(a2rate)}
 		tracks = append(tracks, audio)
 	}
 	m := &gohlslib.Muxer{
@@ -264,7 +289,7 @@ func runMuxer(c *muxCase, nviews []int) (*muxObs, error) {
 		viewAt[k] = true
 	}
 
-	var curCounts []int64
+	var curParts []partObs // parts closed since the last completed segment (Dur filled in later)
 	var prevPT int64
 	var prevPartID, prevSegID uint64
 	{
@@ -274,10 +299,26 @@ func runMuxer(c *muxCase, nviews []int) (*muxObs, error) {
 	}
 	curSPS := spsA
 	curSeq := av1SeqA
-	audioNext := int64(0) // next audio pts in 48 kHz ticks, relative to the first video dts
+	audioNext := int64(0) // next audio pts in its own ticks, relative to the first video dts
+	au := []byte{0x21, 0x10, 0x04, 0x60, 0x8c, 0x1c}
+
+	sizes := c.callSizes()
+	{
+		t := 0
+		for _, b := range sizes {
+			if b < 1 {
+				return nil, fmt.Errorf("bad call size %d", b)
+			}
+			t += b
+		}
+		if t != len(c.Flags) {
+			return nil, fmt.Errorf("call sizes sum to %d, %d writes", t, len(c.Flags))
+		}
+	}
 
 	dts := c.D0
-	for k := 0; k < len(c.Flags); k++ {
+	k := 0
+	for ci, b := range sizes {
 		fl := c.Flags[k]
 		ntp := baseNTP.Add(time.Duration(k) * time.Millisecond)
 		var err error
@@ -309,7 +350,16 @@ func runMuxer(c *muxCase, nviews []int) (*muxObs, error) {
 				err = m.WriteAV1(lead, ntp, dts, [][]byte{av1Frm})
 			}
 		case "aac":
-			err = m.WriteMPEG4Audio(lead, ntp, dts, [][]byte{{0x21, 0x10, 0x04, 0x60, 0x8c, 0x1c}})
+			// b access units in one call: the caller's cadence is a constant 1024 samples, the
+			// muxer derives the timestamps of the 2nd..b-th unit itself
+			aus := make([][]byte, b)
+			for i := range aus {
+				aus[i] = au
+				if c.Deltas[k+i] != 1024 {
+					return nil, fmt.Errorf("AAC access units are 1024 samples")
+				}
+			}
+			err = m.WriteMPEG4Audio(lead, ntp, dts, aus)
 		case "opus":
 			toc, ok := opusTOC[c.Deltas[k]]
 			if !ok {
@@ -321,29 +371,35 @@ func runMuxer(c *muxCase, nviews []int) (*muxObs, error) {
 			obs.WriteErrs = append(obs.WriteErrs, fmt.Sprintf("write %d: %v", k, err))
 		}
 		if audio != nil {
-			// feed the non-leading track up to the video time
-			vt := (dts - c.D0) * 48000 / c.Rate
+			// feed the non-leading track up to the video time, a2batch access units per call
+			vt := (dts - c.D0) * a2rate / c.Rate
 			for audioNext <= vt {
-				apts := audioNext + c.D0*48000/c.Rate
-				if e := m.WriteMPEG4Audio(audio, ntp, apts, [][]byte{{0x21, 0x10, 0x04, 0x60}}); e != nil {
+				apts := audioNext + c.D0*a2rate/c.Rate
+				aus := make([][]byte, a2batch)
+				for i := range aus {
+					aus[i] = au[:4]
+				}
+				if e := m.WriteMPEG4Audio(audio, ntp, apts, aus); e != nil {
 					obs.WriteErrs = append(obs.WriteErrs, fmt.Sprintf("audio write at %d: %v", k, e))
 				}
-				audioNext += 1024
+				audioNext += 1024 * int64(a2batch)
 			}
 		}
-		nk := int64(k + 1)
+		for i := 0; i < b; i++ {
+			dts += c.Deltas[k+i]
+		}
+		k += b
+		nk := int64(k)
+		lastCall := ci == len(sizes)-1
 
 		st := gohlslib.VerifSnapshot(m)
 		l := leading(st)
 		if l == nil {
 			return nil, fmt.Errorf("no leading stream")
 		}
-		// a part was closed by this write: count the samples delivered in it
-		if l.NextPartID != prevPartID {
-			if l.NextPartID != prevPartID+1 {
-				return nil, fmt.Errorf("write %d closed %d parts", k, l.NextPartID-prevPartID)
-			}
-			path := fmt.Sprintf("%s_%s_part%d.mp4", st.Prefix, streamID, prevPartID)
+		// parts closed by this call: count the samples delivered in each and add up their durations
+		for id := prevPartID; id < l.NextPartID; id++ {
+			path := fmt.Sprintf("%s_%s_part%d.mp4", st.Prefix, streamID, id)
 			code, body := get(m, path)
 			if code != http.StatusOK {
 				return nil, fmt.Errorf("part %s: status %d", path, code)
@@ -352,36 +408,42 @@ func runMuxer(c *muxCase, nviews []int) (*muxObs, error) {
 			if e := parts.Unmarshal(body); e != nil {
 				return nil, fmt.Errorf("part %s does not decode: %w", path, e)
 			}
-			n := int64(0)
+			var po partObs
 			for _, p := range parts {
 				for _, tr := range p.Tracks {
 					if tr.ID == 1 {
-						n += int64(len(tr.Samples))
+						po.N += int64(len(tr.Samples))
+						for _, sm := range tr.Samples {
+							po.Ticks += int64(sm.Duration)
+						}
 					}
 				}
 			}
-			curCounts = append(curCounts, n)
-			prevPartID = l.NextPartID
+			curParts = append(curParts, po)
 		}
+		prevPartID = l.NextPartID
 		segs, gaps, next := gohlslib.VerifLeadingParts(m)
-		if l.NextSegmentID != prevSegID {
-			if l.NextSegmentID != prevSegID+1 || len(segs) == 0 || gaps[len(gaps)-1] {
-				return nil, fmt.Errorf("write %d: unexpected segment bookkeeping", k)
+		if nseg := int(l.NextSegmentID - prevSegID); nseg > 0 {
+			// the segments completed by this call are the last nseg retained ones
+			if nseg > len(segs) {
+				return nil, fmt.Errorf("write %d: %d segments completed, %d retained", k, nseg, len(segs))
 			}
-			last := segs[len(segs)-1]
-			if len(last) != len(curCounts) {
-				return nil, fmt.Errorf("write %d: segment has %d parts, %d were closed", k, len(last), len(curCounts))
+			for _, sg := range segs[len(segs)-nseg:] {
+				if sg == nil || len(sg) > len(curParts) || len(sg) == 0 {
+					return nil, fmt.Errorf("write %d: unexpected segment bookkeeping", k)
+				}
+				sp := append([]partObs{}, curParts[:len(sg)]...)
+				curParts = curParts[len(sg):]
+				for i, d := range sg {
+					sp[i].Dur = int64(d)
+				}
+				obs.NonFinal = append(obs.NonFinal, sp[:len(sp)-1]...)
+				obs.Published = append(obs.Published, sp)
 			}
-			var sp []partObs
-			for i, d := range last {
-				sp = append(sp, partObs{Dur: int64(d), N: curCounts[i]})
-			}
-			obs.Published = append(obs.Published, sp)
-			curCounts = nil
 			prevSegID = l.NextSegmentID
 		}
-		if len(next) != len(curCounts) {
-			return nil, fmt.Errorf("write %d: next segment has %d parts, %d were closed", k, len(next), len(curCounts))
+		if len(next) != len(curParts) {
+			return nil, fmt.Errorf("write %d: next segment has %d parts, %d were closed", k, len(next), len(curParts))
 		}
 		if pt := int64(l.PartTargetDuration); pt != prevPT {
 			obs.PTTrace = append(obs.PTTrace, [2]int64{nk, pt})
@@ -400,13 +462,13 @@ func runMuxer(c *muxCase, nviews []int) (*muxObs, error) {
 			}
 			obs.playlists = append(obs.playlists, viewObs{K: nk, PL: pl})
 			obs.errsAt = append(obs.errsAt, obs.Errors)
-			if viewAt[k] || k == len(c.Flags)-1 {
+			if viewAt[ci] || lastCall {
 				obs.Views = append(obs.Views, viewObs{K: nk, PL: pl})
 				obs.body[nk] = string(body)
 			}
 		}
 
-		if k == len(c.Flags)-1 {
+		if lastCall {
 			obs.Adjusted = int64(st.AdjustedPartDuration)
 			obs.Freeze = st.FreezeAdjustedPartDuration
 			for i, sg := range segs {
@@ -422,10 +484,12 @@ func runMuxer(c *muxCase, nviews []int) (*muxObs, error) {
 				}
 			}
 			for i, d := range next {
-				obs.Next = append(obs.Next, partObs{Dur: int64(d), N: curCounts[i]})
+				po := curParts[i]
+				po.Dur = int64(d)
+				obs.Next = append(obs.Next, po)
+				obs.NonFinal = append(obs.NonFinal, po)
 			}
 		}
-		dts += c.Deltas[k]
 	}
 	return obs, nil
 }
